@@ -148,6 +148,7 @@ fn model_case(ctx: &mut Ctx, rng: &mut Rng) {
     let mut s2: HashSet<usize> = HashSet::new();
     let steps = rng.range(20, 200);
     let mut trace: Vec<Value> = Vec::new();
+    let mut snapshot: (PartialModel, HashMap<usize, bool>) = (PartialModel::new(n), HashMap::new());
     for _ in 0..steps {
         let v = rng.below(n);
         let l = VarLabel::new(v as u64);
@@ -216,7 +217,17 @@ fn model_case(ctx: &mut Ctx, rng: &mut Rng) {
                 bad = Some("from_assignments / from_litvec".into());
             }
         }
-        // difference against an earlier snapshot = newly assigned literals
+        // difference against an arbitrary other model (the two may disagree on a variable):
+        // by definition the literals true here and not true there, per polarity
+        if rng.chance(1, 6) {
+            snapshot = (pm.clone(), model.clone());
+        }
+        let got: BTreeSet<(usize, bool)> = pm.difference(&snapshot.0).map(|l| (l.label().value_usize(), l.polarity())).collect();
+        let exp: BTreeSet<(usize, bool)> = model.iter().filter(|(k, v)| snapshot.1.get(*k) != Some(*v)).map(|(k, v)| (*k, *v)).collect();
+        ctx.count("model_differences", 1);
+        if got != exp {
+            bad = Some("difference against an earlier snapshot".into());
+        }
         let empty = PartialModel::new(n);
         let d: BTreeSet<(usize, bool)> = pm.difference(&empty).map(|l| (l.label().value_usize(), l.polarity())).collect();
         if d != want {
